@@ -566,7 +566,43 @@ func c14ForgePair(variant int) (a, b ref.PMTSection, ok bool) {
 	return a, b, bytes.Equal(nb[len(nb)-4:], ab[len(ab)-4:]) && !bytes.Equal(nb, ab)
 }
 
+// c14ForgeTo returns a well-formed PMT whose CRC_32 field holds exactly target (e.g. four 0xFF bytes,
+// which read like the stuffing that follows the section).
+func c14ForgeTo(target uint32) (ref.PMTSection, bool) {
+	free := ref.Desc{Tag: 0x05, Body: append([]byte(nil), c14ForgeMarker...)}
+	s := ref.PMTSection{Program: 1, Version: 6, CurrentNext: true, PCRPID: 0x101, ProgDescs: []ref.Desc{free},
+		Streams: []ref.Stream{{Type: 0x1B, PID: 0x101}, {Type: 0x0F, PID: 0x102, Descs: []ref.Desc{{Tag: 0x0A, Body: []byte("eng\x00")}}}, {Type: 0x86, PID: 0x103}}}
+	b := ref.PMTBytes(s, false)
+	off := bytes.Index(b, c14ForgeMarker)
+	if off < 0 || !ref.ForgeCRC(b[:len(b)-4], off, target) {
+		return s, false
+	}
+	copy(free.Body, b[off:off+4])
+	nb := ref.PMTBytes(s, false)
+	return s, ref.CRC32MPEG2(nb[:len(nb)-4]) == target
+}
+
+var c14StuffingLikeCRCs = []uint32{0xFFFFFFFF, 0x00000000, 0xFF000000, 0x000000FF, 0xFFFFFF00, 0x00FFFFFF, 0x47474747}
+
 func c14CheckForge(c c14ForgeCase) engine.Result {
+	if c.Variant >= 100 {
+		// a single PMT whose CRC_32 bytes look like stuffing (or like sync bytes)
+		var res engine.Result
+		sec, ok := c14ForgeTo(c14StuffingLikeCRCs[c.Variant-100])
+		if !ok {
+			res.Failf("harness|crc-forgery-failed", "target %#x", c14StuffingLikeCRCs[c.Variant-100])
+			return res
+		}
+		pmtPID := 0x0100
+		var sc c14Scratch
+		o := ref.CarryOpts{PID: pmtPID, CC0: 5, First: c.First}
+		pkts, caps := ref.CarrySection(o, c06Payload(0, ref.PMTBytes(sec, false), 3))
+		reqs := c14MakeReqs(&sec, false, ref.Pointer(0), pmtPID, c14Requests(&sec, pmtPID, true))
+		c14Filter(&res, "CRC_32-bytes-look-like-stuffing", pkts, caps, reqs, &sc)
+		res.Nontrivial = int64(len(reqs))
+		res.Outcome(c.Variant, c.First)
+		return res
+	}
 	var res engine.Result
 	a, b, ok := c14ForgePair(c.Variant)
 	if !ok {
@@ -623,11 +659,16 @@ func init() {
 			},
 			&engine.Enum[c14ForgeCase]{
 				Name: "crc-collisions",
-				Rule: "4 pairs of different well-formed PMTs (other stream types / other stream set / other descriptors / next version) whose CRC_32 fields hold the same 32-bit value (four free registration-descriptor bytes solved for over GF(2)) x first-packet payload {184, 100, 20}; per request list (7 lists) the call sequence A, B, A, B, B, A with that one list, every result judged as in 'filter' against the reference filter of the PMT actually passed in; all cases run in one worker (anything remembered between calls under the section's CRC_32 shows); non-trivial = each call",
+				Rule: "4 pairs of different well-formed PMTs (other stream types / other stream set / other descriptors / next version) whose CRC_32 fields hold the same 32-bit value (four free registration-descriptor bytes solved for over GF(2)) x first-packet payload {184, 100, 20}; per request list (7 lists) the call sequence A, B, A, B, B, A with that one list, every result judged as in 'filter' against the reference filter of the PMT actually passed in; all cases run in one worker (anything remembered between calls under the section's CRC_32 shows); plus PMTs whose CRC_32 is forged to FFFFFFFF, 00000000, FF000000, 000000FF, FFFFFF00, 00FFFFFF, 47474747 (bytes that read like stuffing or sync bytes), every request list; non-trivial = each call",
 				Gen: func(r *engine.Run, emit func(c14ForgeCase)) {
 					for v := 0; v < 4; v++ {
 						for _, f := range []int{184, 100, 20} {
 							emit(c14ForgeCase{v, f})
+						}
+					}
+					for i := range c14StuffingLikeCRCs {
+						for _, f := range []int{184, 50} {
+							emit(c14ForgeCase{100 + i, f})
 						}
 					}
 				},
